@@ -95,8 +95,9 @@ Write(e) ==
           IN /\ Expect(l, "mdl-rewrite-material-names", Sig(e), MaterialNames(O, Layout(O)), e.res.reparsed.v.v.materials)
              /\ Expect(l, "mdl-rewrite-bone-names", Sig(e), BoneNames(O, Layout(O)), e.res.reparsed.v.v.bones)
              /\ Require(l, "mdl-rewrite-length", Sig(e), e.res.written.v.len = Len(O))
-             /\ IF Len(W) = Len(O) /\ W # O
-                THEN Mismatch(l, "mdl-rewrite-bytes", Sig(e), "same bytes", Min({k \in 1..Len(O) : W[k] # O[k]}) - 1) ELSE TRUE
+             \* byte for byte; files logged as head + length are compared over the logged head
+             /\ IF Len(W) <= Len(O) /\ W # SubSeq(O, 1, Len(W))
+                THEN Mismatch(l, "mdl-rewrite-bytes", Sig(e), "same bytes", Min({k \in 1..Len(W) : W[k] # O[k]}) - 1) ELSE TRUE
      ELSE TRUE
   /\ UNCHANGED <<geom, orig, shp>>
 Replace(e) ==
